@@ -53,7 +53,11 @@ type cancelObs struct {
 	StartedAfter     []string `json:"started_after_cancel"`
 	WaitingStarted   []string `json:"waiting_started"`
 	SleepersLeft     int      `json:"sleepers_left"`
-	Note             string   `json:"note"`
+	// commands of the scenario still alive at the moment Cancel returned (-1: not measured)
+	AliveAtReturn int `json:"alive_at_return"`
+	// point "run-during-cancel": a Run issued while Cancel was still waiting returned (with an error) / did not return
+	DuringRunReturned int    `json:"during_run_returned"` // -1 not such a scenario, 0 did not return, 1 returned with an error, 2 returned nil
+	Note              string `json:"note"`
 }
 
 func (s cancelScenario) String() string {
@@ -111,11 +115,14 @@ func longTask(name, log, sleepTag string, sc cancelScenario) *task.Task {
 		t.Timeout = &d
 	}
 	body := fmt.Sprintf("echo start-%s >> %s; sleep %s; echo end-%s >> %s", name, log, sleepTag, name, log)
-	if sc.Point == "overlap" {
+	if sc.Point == "overlap" || sc.Point == "run-during-cancel" {
 		// a command that ignores the interrupt: it dies of the kill that follows two seconds later
 		body = fmt.Sprintf("echo start-%s >> %s; sh -c 'trap \"\" INT; exec sleep %s'; echo end-%s >> %s", name, log, sleepTag, name, log)
 	}
 	switch sc.Point {
+	case "in-context-up-immune":
+		t.Context = "slow-" + sc.Point
+		t.Commands = []string{fmt.Sprintf("echo cmd-%s >> %s", name, log)}
 	case "in-context-up", "in-context-before":
 		// the cancellation arrives while a command of the task's execution context is running (bringing the context up,
 		// or its before hook): it is one of the commands that are running
@@ -146,7 +153,7 @@ func cancelChild(args []string) {
 		fmt.Fprintln(os.Stderr, err)
 		os.Exit(3)
 	}
-	obs := cancelObs{CancelReturnedMs: -1, SecondCancelMs: -2, OverlapAlive: -1}
+	obs := cancelObs{CancelReturnedMs: -1, SecondCancelMs: -2, OverlapAlive: -1, AliveAtReturn: -1, DuringRunReturned: -1}
 	sleepTag := fmt.Sprintf("30.%d", os.Getpid()) // `sleep 30.<pid>`: identifiable in the process table
 	r, err := runner.NewTaskRunner()
 	if err != nil {
@@ -167,6 +174,8 @@ func cancelChild(args []string) {
 		"broken": runner.NewExecutionContext(nil, "", variables.NewVariables(), []string{"false"}, nil, nil, nil),
 		"slow-in-context-up": runner.NewExecutionContext(nil, "", variables.NewVariables(),
 			[]string{fmt.Sprintf("echo start-t0 >> %s; sleep %s", sc.Log, sleepTag)}, []string{fmt.Sprintf("echo ctx-down >> %s", sc.Log)}, nil, []string{fmt.Sprintf("echo ctx-after >> %s", sc.Log)}),
+		"slow-in-context-up-immune": runner.NewExecutionContext(nil, "", variables.NewVariables(),
+			[]string{fmt.Sprintf("echo start-t0 >> %s; sh -c 'trap \"\" INT; exec sleep %s'", sc.Log, sleepTag)}, nil, nil, nil),
 		"slow-in-context-before": runner.NewExecutionContext(nil, "", variables.NewVariables(),
 			[]string{"true"}, []string{fmt.Sprintf("echo ctx-down >> %s", sc.Log)}, []string{fmt.Sprintf("echo start-t0 >> %s; sleep %s", sc.Log, sleepTag)}, []string{fmt.Sprintf("echo ctx-after >> %s", sc.Log)}),
 	})
@@ -229,8 +238,35 @@ func cancelChild(args []string) {
 				close(overlapDone)
 			}()
 		}
+		duringDone := make(chan int, 1)
+		if sc.Point == "run-during-cancel" {
+			// a Run that arrives while Cancel is still waiting for the commands in flight: it is refused, and returns
+			go func() {
+				time.Sleep(300 * time.Millisecond)
+				during := task.FromCommands(fmt.Sprintf("echo late-ran >> %s", sc.Log))
+				during.Name = "during"
+				res := make(chan error, 1)
+				go func() { res <- r.Run(during) }()
+				select {
+				case e := <-res:
+					if e != nil {
+						duringDone <- 1
+					} else {
+						duringDone <- 2
+					}
+				case <-time.After(bound):
+					duringDone <- 0
+				}
+			}()
+		}
 		obs.CancelReturnedMs = timedCancel(r.Cancel)
+		if sc.Point != "overlap" {
+			obs.AliveAtReturn = countSleepers(sleepTag)
+		}
 		appendLine(sc.Log, "CANCEL-RETURNED")
+		if sc.Point == "run-during-cancel" {
+			obs.DuringRunReturned = <-duringDone
+		}
 		if obs.CancelReturnedMs < 0 {
 			emit()
 			os.Exit(0)
@@ -388,6 +424,11 @@ func cancelChild(args []string) {
 			startNames = append(startNames, "start-"+name)
 			stages = append(stages, &scheduler.Stage{Name: name, Task: longTask(name, sc.Log, sleepTag, sc)})
 		}
+		if sc.Point == "run-during-cancel" {
+			late := task.FromCommands(fmt.Sprintf("echo late-ran >> %s", sc.Log))
+			late.Name = "late"
+			stages = append(stages, &scheduler.Stage{Name: "late", Task: late})
+		}
 		for i := 0; i < sc.Waiting; i++ {
 			name := fmt.Sprintf("w%d", i)
 			st := &scheduler.Stage{Name: name, Task: longTask(name, sc.Log, sleepTag, sc)}
@@ -433,6 +474,12 @@ func cancelChild(args []string) {
 			}
 		}
 		sd := scheduler.NewScheduler(r)
+		cancelStarted := make(chan struct{})
+		if sc.Point == "run-during-cancel" {
+			// the runner seen by the scheduler holds the stage "late" back until the cancellation has been under way for a
+			// moment: its Run arrives while Cancel is still waiting for the command in flight
+			sd = scheduler.NewScheduler(&lateRunner{TaskRunner: r, started: cancelStarted})
+		}
 		sd.VerifSetPause(time.Millisecond)
 		schedDone := make(chan error, 1)
 		if sc.Mode == "sched-conderr" && sc.Inflight == 0 {
@@ -444,6 +491,7 @@ func cancelChild(args []string) {
 			obs.Note = "stages did not start"
 		}
 		appendLine(sc.Log, "CANCEL-CALLED")
+		close(cancelStarted)
 		if sc.Mode == "sched-conderr" {
 			if sc.Inflight > 0 {
 				breakCond(sc.Cond)
@@ -460,6 +508,9 @@ func cancelChild(args []string) {
 				}()
 			}
 			obs.CancelReturnedMs = timedCancel(sd.Cancel)
+			if sc.Point != "overlap" {
+				obs.AliveAtReturn = countSleepers(sleepTag)
+			}
 			appendLine(sc.Log, "CANCEL-RETURNED")
 			if obs.CancelReturnedMs < 0 {
 				emit()
@@ -584,6 +635,12 @@ func cancelVerdict(sc cancelScenario, obs *cancelObs, exit int, stderr string, t
 		return fmt.Sprintf("a second Cancel, issued while the first was still waiting for a command that ignores the interrupt, returned while %d command(s) were still running", obs.OverlapAlive), "c12-second-cancel-early"
 	case sc.Point == "overlap" && obs.OverlapAlive < 0:
 		return "the second (overlapping) Cancel had not returned when the scenario ended", "c12-cancel-twice"
+	case obs.AliveAtReturn > 0:
+		return fmt.Sprintf("Cancel returned while %d command(s) of the run were still running", obs.AliveAtReturn), "c12-cancel-early"
+	case obs.DuringRunReturned == 0:
+		return "a Run issued while Cancel was waiting for the commands in flight never returned", "c12-run-blocks"
+	case obs.DuringRunReturned == 2:
+		return "a Run issued while Cancel was waiting for the commands in flight reported success", "c12-late-run"
 	case len(obs.StartedAfter) > 0:
 		return fmt.Sprintf("commands started after cancellation: %v", obs.StartedAfter), "c12-started-after"
 	case len(obs.WaitingStarted) > 0 && sc.Mode != "sched-conderr":
@@ -657,6 +714,9 @@ func genCancelScenarios(tier string, rng *rand.Rand) []cancelScenario {
 	// ... or while a command of the task's execution context is running (its up commands, its before hook)
 	out = append(out, cancelScenario{Mode: "runner", Inflight: 1, Point: "in-context-up"}, cancelScenario{Mode: "runner", Inflight: 1, Point: "in-context-before"},
 		cancelScenario{Mode: "sched", Inflight: 1, Waiting: 1, Point: "in-context-up"}, cancelScenario{Mode: "sched", Inflight: 1, Waiting: 1, Point: "in-context-before", Allow: true})
+	out = append(out, cancelScenario{Mode: "sched", Inflight: 1, Waiting: 0, Point: "run-during-cancel"}, cancelScenario{Mode: "sched", Inflight: 2, Waiting: 1, Point: "run-during-cancel"})
+	out = append(out, cancelScenario{Mode: "runner", Inflight: 1, Point: "in-context-up-immune"},
+		cancelScenario{Mode: "runner", Inflight: 1, Point: "run-during-cancel"}, cancelScenario{Mode: "runner", Inflight: 2, Point: "run-during-cancel", Allow: true})
 	// ... or while the scheduling loop is evaluating the condition of a stage
 	out = append(out, cancelScenario{Mode: "sched-in-stage-condition", Point: "in-command"})
 	// a cancellation that completed before the pipeline is run
@@ -879,4 +939,18 @@ func condVerdictCases(col *Collector) {
 		}
 		col.Add(cs)
 	})
+}
+
+// lateRunner is the real runner, except that the task named "late" enters Run only 300 ms after the cancellation began
+type lateRunner struct {
+	*runner.TaskRunner
+	started chan struct{}
+}
+
+func (l *lateRunner) Run(t *task.Task) error {
+	if t.Name == "late" {
+		<-l.started
+		time.Sleep(300 * time.Millisecond)
+	}
+	return l.TaskRunner.Run(t)
 }
